@@ -169,8 +169,14 @@ func runC40(c *fw.Ctx) {
 		c.Must(base.Dump(dst, real+dst), "dump")
 	}
 	os.MkdirAll(real+"/srvroot/gf", 0o755)
+	// a sibling whose name merely starts with the root's name, and an absolute path that runs through the root lexically
+	c.Must(base.Dump("/outside/out.git", real+"/srvroot-private/secret.git"), "dump")
+	c.Must(base.Dump("/outside/out.git", real+"/srvroot.git"), "dump")
 	realGitfiles := append([]string{}, gitfiles...)
-	realGitfiles = append(realGitfiles, "gitdir: "+real+"/outside/out.git\n", "gitdir: "+real+"/outside/wt/.git\n")
+	realGitfiles = append(realGitfiles, "gitdir: "+real+"/outside/out.git\n", "gitdir: "+real+"/outside/wt/.git\n",
+		"gitdir: "+real+"/srvroot-private/secret.git\n", "gitdir: "+real+"/srvroot.git\n",
+		"gitdir: "+real+"/srvroot/../outside/out.git\n", "gitdir: "+real+"/srvroot/../srvroot-private/secret.git\n",
+		"gitdir: "+real+"/srvroot/repo.git/../../outside/out.git\n")
 	for gi, content := range realGitfiles {
 		if err := os.WriteFile(real+"/srvroot/gf/.git", []byte(content), 0o644); err != nil {
 			fw.Abort("write gitfile: %v", err)
